@@ -33,6 +33,9 @@ def _calls_named(fn: Func, name: str) -> List[ast.Call]:
 
 def check(ck: Checker) -> None:
     _lints(ck, "C19.aliasing", "hashfile.tree")
+    from . import round4 as _r4
+
+    _r4.merge_loads_strict(ck, "C19.digest")
     prog, res = ck.prog, ck.res
     ck.decided = [
         "C19.conflict: _merge returns a combined result only across 'diff(patch(ours+theirs), patch(theirs+ours)) is empty', both applied to the same ancestor; the early returns hand back the other side exactly when this side's diff is empty; both per-side diffs are taken against the ancestor under the caller's policy",
@@ -266,9 +269,29 @@ def _digest(ck: Checker) -> None:
             order = []
             mgf = cals[0]
             roles = [get_arg(c, mgf, pn, pos=i) for i, pn in enumerate(mgf.pos_params[:3])]
+            from ..an import value_alts
+
+            cn = next((x for x in g.nodes.values() if any(c2 is c for c2 in calls_at(x))), None)
+
+            def info_params(e, at, depth=5):
+                """which of merge()'s *_info parameters the value of e (at node `at`) is loaded from (flow-sensitive)"""
+                from ..an import reaching_defs
+
+                out = set()
+                for y in ast.walk(e):
+                    if isinstance(y, ast.Name) and isinstance(y.ctx, ast.Load):
+                        if fn.has_param(y.id) and y.id.endswith("_info"):
+                            out.add(y.id)
+                        elif depth > 0:
+                            for d in reaching_defs(g, at.id, y.id):
+                                v = getattr(d.ast, "value", None)
+                                if v is not None and not (isinstance(v, ast.Call) and call_name(v) == "Tree" and not v.args):
+                                    out |= info_params(v, d, depth - 1)
+                return out
+
             for a in [r_ for r_ in roles if r_ is not None]:
-                alts = " ".join(norm(z) for z in expand1(prog, fn, a, levels=2))
-                order.append("ancestor" if "ancestor" in alts else ("our" if "our_info" in alts or "our" in norm(a) else ("their" if "their" in alts else "?")))
+                ps = info_params(a, cn) if cn is not None else set()
+                order.append({"ancestor_info": "ancestor", "our_info": "our", "their_info": "their"}.get(next(iter(ps)), "?") if len(ps) == 1 else f"?{sorted(ps)}")
             ck.require(order == ["ancestor", "our", "their"], "C19.digest", fn, c, "_merge(ancestor, ours, theirs) in that order", f"_merge is called with {order}", construct="_merge(...) / argument roles")
             al = get_arg(c, cals[0], "allowed")
             ck.require(al is not None and norm(al) == "allowed", "C19.policy", fn, c, "merge() forwards its policy", "merge() does not forward `allowed`", construct="_merge(... allowed=allowed)")
